@@ -517,11 +517,16 @@ static void case_c12(const Spec& spec0, int alg, int covband) {
   Res r = run_flow(a, true);
   std::string tag = std::string(ALGS[alg]) + " xml cov-band " + std::to_string(covband);
   sx::check_true(r.adjusted, tag + " adjusted", r.why); if (!r.adjusted) return;
+  // description with markup characters, quotes and non-ASCII text (strings are native: enumerated, not symbolic)
+  static const char* descr[] = {"plain text", "a<b>&c &amp; d", "it's", "say \"hello\"", "pr\xc5\xaf""m\xc4\x9br <\xc3\xa9>"};
+  std::string wanted_description = descr[(covband + 1 + alg) % 5];
+  IS->description = wanted_description;
   std::ostringstream xml; GNU_gama::LocalNetworkXML writer(IS); writer.write(xml);
   GNU_gama::LocalNetworkAdjustmentResults res;
   try { std::istringstream in(xml.str()); res.read_xml(in); }
   catch (const GNU_gama::Exception::parser& e) { sx::fail(tag + " the written XML is rejected by the result reader", std::string(e.what()) + " line " + std::to_string(e.line)); return; }
   catch (...) { sx::fail(tag + " the written XML is rejected by the result reader", "exception"); return; }
+  sx::check_true(res.description == wanted_description, tag + " description read back without loss", "written: " + wanted_description + " | read: " + res.description);
   sx::check_true(res.project_equations.equations == r.nobs && res.project_equations.unknowns == r.nunk && res.project_equations.degrees_of_freedom == r.dof && res.project_equations.defect == r.defect, tag + " counts read back", "");
   same_printed(res.project_equations.sum_of_squares, r.vpv, tag + " sum of squares read back");
   same_printed(res.standard_deviation.apriori, IS->apriori_m_0(), tag + " a priori m0 read back");
